@@ -22,6 +22,39 @@ DELTA = F(1, 10 ** 9)      # marginals, as the property states
 EPS = F(1, 10 ** 7)        # cost bracket, relative to max(1, OPT)
 
 
+def run_child(script, payload, key, env_extra=None, timeout=1800):
+    """common.run_impl for children that run concurrently: a private file tag and a private numba cache per child
+    (common.run_impl derives both from the parent's pid and would share / delete them between concurrent children)."""
+    import json
+    import os
+    import subprocess
+    import time
+    d = C.os_makedirs(os.path.join(C.WORK, "impl"))
+    tag = "%s_%d_%s" % (script, os.getpid(), "".join(ch if ch.isalnum() else "_" for ch in str(key)))
+    fin, fout = os.path.join(d, tag + ".in.json"), os.path.join(d, tag + ".out.json")
+    json.dump(payload, open(fin, "w"))
+    env = C.impl_env(env_extra)
+    env["NUMBA_CACHE_DIR"] = C.os_makedirs(os.path.join(C.WORK, "numba_cache_%s" % tag))
+    t0 = time.time()
+    try:
+        p = subprocess.run(["timeout", "-k", "10", str(timeout), C.PY, os.path.join(C.VERIF, "harness", "impl", script + ".py"),
+                            fin, fout], cwd=C.REPO, env=env, stdout=subprocess.PIPE, stderr=subprocess.STDOUT, text=True)
+        rc, out = p.returncode, p.stdout
+    finally:
+        subprocess.run(["rm", "-rf", env["NUMBA_CACHE_DIR"]])
+    info = {"rc": rc, "wall_s": round(time.time() - t0, 2), "tail": out[-2000:]}
+    res = None
+    if os.path.exists(fout):
+        try:
+            res = json.load(open(fout))
+        except Exception as e:
+            info["parse_error"] = repr(e)
+        os.remove(fout)
+    if os.path.exists(fin):
+        os.remove(fin)
+    return res, info
+
+
 # ---------------------------------------------------------------- generators
 def f32(x):
     return struct.unpack("f", struct.pack("f", x))[0]
@@ -448,7 +481,7 @@ def run(ctx, replay=None):
     half = (len(cases) + 1) // 2
     from concurrent.futures import ThreadPoolExecutor
     with ThreadPoolExecutor(max_workers=2) as ex:
-        futs = [ex.submit(C.run_impl, "c07", part) for part in (cases[:half], cases[half:]) if part]
+        futs = [ex.submit(run_child, "c07", part, "half%d" % k) for k, part in enumerate((cases[:half], cases[half:])) if part]
         outs = [f.result() for f in futs]
     impl = []
     for (r, info), part in zip(outs, (cases[:half], cases[half:])):
